@@ -76,8 +76,10 @@ AgreeOK(c, o) == (/\ o.err = "none" /\ Len(o.dl) = Len(o.dn) /\ Len(o.dr) = Len(
                         \/ \A j \in 1..c.ar : \A i \in 1..j :
                               (~Const(c, i) /\ ~Const(c, j)) => (o.hlr[HesIdxR(c.ar, i, j)] # "bad" /\ o.hrr[HesIdxR(c.ar, i, j)] # "bad")
 \* what cannot be computed is reported
-NaNArgOK(c, o) == (\E i \in 1..c.ar : c.cls[i] = "NaN") => o.err # "none"
-NonIntOK(c, o) == (\E i \in IntPos(c) : c.cls[i] = "nonint") => o.err # "none"
+\* (an error whose message starts with ' concerns the derivatives only and says that the value is fine: it does
+\* not report an argument for which there is no value)
+NaNArgOK(c, o) == (\E i \in 1..c.ar : c.cls[i] = "NaN") => o.err = "eval"
+NonIntOK(c, o) == (\E i \in IntPos(c) : c.cls[i] = "nonint") => o.err = "eval"
 IntDerivOK(c, o) == (WantD(c) /\ \E i \in IntPos(c) : ~Const(c, i)) => o.err # "none"
 DetOK(c, o) == ~c.rnd => o.det
 
